@@ -1166,7 +1166,11 @@ static sexp analyze (sexp ctx, sexp object, int depth, int defok) {
             sexp_warn(ctx, "not enough args for opcode: ", x);
             op = tmp = analyze_var_ref(ctx, sexp_car(x), NULL);
           } else if ((sexp_unbox_fixnum(res) > sexp_opcode_num_args(op))
-                     && (! sexp_opcode_variadic_p(op))) {
+                     && (! sexp_opcode_variadic_p(op)
+                         /* only arithmetic is folded, others take one optional arg */
+                         || ((sexp_unbox_fixnum(res) > sexp_opcode_num_args(op) + 1)
+                             && (sexp_opcode_class(op) != SEXP_OPC_ARITHMETIC)
+                             && (sexp_opcode_class(op) != SEXP_OPC_ARITHMETIC_CMP)))) {
             sexp_warn(ctx, "too many args for opcode: ", x);
             op = tmp = analyze_var_ref(ctx, sexp_car(x), NULL);
           }
